@@ -58,6 +58,42 @@ def not_in_tx_region(ctx, b, reads):
     return out
 
 
+def _only_via_names(b, tests, names, site):
+    """is `site` reachable from the entry only through the true edge of a comparison of the
+    command name with one of `names`?"""
+    cut = {(t["sw"], t["true"]) for t in tests if t["name"] in names}
+    if not cut:
+        return False
+    seen = set(); st = [0]
+    while st:
+        x = st.pop()
+        if x in seen:
+            continue
+        seen.add(x)
+        if x == site:
+            return False
+        for y in b.succs(x):
+            if (x, y) in cut:
+                continue
+            st.append(y)
+    return True
+
+
+def _uses_in_tx_flag(ctx, b, reads, site):
+    """a bool derived from the connection's in_transaction flag decides a branch on the way to site"""
+    for x, bb in enumerate(b.bbs):
+        t = bb["t"]
+        if t["k"] != "switch" or op_is_const(t["d"]) or not cfg.dominates(b, x, site):
+            continue
+        pl = op_place(t["d"])
+        if pl["p"] or b.locals[pl["l"]] != "bool":
+            continue
+        P = prov.origins(b, pl["l"], deep=True)
+        if any(r[0] == "call" and r[2] in reads for r in P.roots) or b.names.get(pl["l"]) == "in_transaction":
+            return True
+    return False
+
+
 def queue_decision(ctx, b):
     """where process_frame decides `queue it`: (queue site block, [decision switch blocks, outermost
     first], successor of the innermost decision that leads to the queue site).  The decision is
@@ -154,6 +190,11 @@ def rule_queue(ctx, R):
         R.inst(PF, "effect:" + short, {"call": short, "at": b.loc(i), "dominated_by_queue_test": dom, "commands": cmds[:4]})
         if i in queued and cal != "network::server::ShardedConnections::with_connection":
             R.finding(PF, "effect:%s:on-queued-edge" % short, "%s is executed on the edge where the command was queued" % short, b.loc(i))
+        elif not dom and not cmds and _only_via_names(b, tests, ctrl | {"UNWATCH"}, i) and _uses_in_tx_flag(ctx, b, set(_reads or ()), i):
+            # an arm shared by the never-queued commands and UNWATCH, guarded by a flag computed from
+            # in_transaction and a second comparison of the command name: the rule cannot tell which
+            # command passes the guard in which state -- undecided, not a finding
+            R.broken.append("%s (line %d) sits in an arm shared by the transaction-control commands behind a guard that mixes in_transaction with another comparison of the command name: the rule cannot decide whether UNWATCH is queued inside MULTI there" % (short, b.bb_line(i)))
         elif not dom:
             # keyed by the commands of the arm (stable when the arm's body is moved into a helper)
             R.finding(PF, ("immediate-in-multi:%s" % "+".join(cmds[:4])) if cmds else ("effect:%s:before-queue-test" % short),
